@@ -3,7 +3,11 @@
 
 Regenerates lean/Pixman/Gen/SrgbTable.lean from the working tree:
   * `to_linear_u[256]` of pixman/pixman-access.c (binary32 bit patterns of the sRGB -> linear table),
-  * `needs_division[]` of operator_needs_division() in pixman/pixman-general.c.
+  * `needs_division[]` of operator_needs_division() in pixman/pixman-general.c,
+  * the narrow/wide decision of general_composite_rect() (the `if` that sets width_flag = ITER_NARROW): every
+    conjunct is translated by a fixed pattern table into a Boolean expression over named inputs,
+  * the macro PIXMAN_FORMAT_IS_WIDE of pixman/pixman-private.h (with PIXMAN_TYPE_ARGB_SRGB from pixman.h) and the
+    statement of compute_image_info() that clears FAST_PATH_NARROW_FORMAT with it.
 Fails closed: a missing table, a wrong number of entries or a non-monotone to_linear table is a
 non-zero exit (=> obligation "extraction" fails)."""
 import re, struct, sys
@@ -43,6 +47,68 @@ def main():
     nd = [t.strip() for t in m.group(1).split(",") if t.strip()]
     if len(nd) != 64 or not all(t in ("0", "1") for t in nd):
         die(f"needs_division: {len(nd)} entries / unexpected token")
+    # ---- the narrow/wide decision of general_composite_rect
+    m = re.search(r"if\s*\(([^;{}]*?)\)\s*\{\s*width_flag\s*=\s*ITER_NARROW\s*;\s*Bpp\s*=\s*4\s*;\s*\}\s*else\s*\{\s*"
+                  r"width_flag\s*=\s*ITER_WIDE\s*;\s*Bpp\s*=\s*16\s*;\s*\}", gen, flags=re.S)
+    if not m:
+        die("general_composite_rect: narrow/wide decision not found")
+    if len(re.findall(r"width_flag\s*=\s*ITER_", gen)) != 2:
+        die("general_composite_rect: width_flag is assigned somewhere else as well")
+    cond = re.sub(r"\s+", " ", m.group(1)).strip()
+    # split at top-level &&
+    parts, depth, cur, i = [], 0, "", 0
+    while i < len(cond):
+        c = cond[i]
+        if c == "(":
+            depth += 1
+        elif c == ")":
+            depth -= 1
+        if depth == 0 and cond.startswith("&&", i):
+            parts.append(cur.strip()); cur = ""; i += 2
+            continue
+        cur += c; i += 1
+    parts.append(cur.strip())
+    norm = lambda s: re.sub(r"\s+", "", s)
+    table = {
+        norm("(src_image->common.flags & FAST_PATH_NARROW_FORMAT)"): "srcNarrow",
+        norm("(!mask_image || mask_image->common.flags & FAST_PATH_NARROW_FORMAT)"): "(!maskPresent || maskNarrow)",
+        norm("(dest_image->common.flags & FAST_PATH_NARROW_FORMAT)"): "destNarrow",
+        norm("!(operator_needs_division (op))"): "!needsDivision",
+        norm("(dest_image->bits.dither == PIXMAN_DITHER_NONE)"): "ditherNone",
+    }
+    conj = []
+    for q in parts:
+        if norm(q) not in table:
+            die(f"general_composite_rect: unknown conjunct {q!r} in the narrow/wide decision")
+        conj.append(table[norm(q)])
+    decision = " && ".join(conj)
+    # ---- PIXMAN_FORMAT_IS_WIDE and where it clears the narrow flag
+    priv = strip_comments((repo / "pixman" / "pixman-private.h").read_text())
+    m = re.search(r"#\s*define\s+PIXMAN_FORMAT_IS_WIDE\s*\(\s*f\s*\)((?:[^\n\\]|\\\n|\\.)*)", priv)
+    if not m:
+        die("PIXMAN_FORMAT_IS_WIDE not found")
+    body = norm(m.group(1).replace("\\\n", " "))
+    if body.startswith("(") and body.endswith(")"):
+        body = body[1:-1]
+    pub = strip_comments((repo / "pixman" / "pixman.h").read_text())
+    ms = re.search(r"#\s*define\s+PIXMAN_TYPE_ARGB_SRGB\s+(\d+)", pub)
+    if not ms:
+        die("PIXMAN_TYPE_ARGB_SRGB not found")
+    wide_terms = {"PIXMAN_FORMAT_A(f)>8": "a > 8", "PIXMAN_FORMAT_R(f)>8": "r > 8", "PIXMAN_FORMAT_G(f)>8": "g > 8",
+                  "PIXMAN_FORMAT_B(f)>8": "b > 8", "PIXMAN_FORMAT_TYPE(f)==PIXMAN_TYPE_ARGB_SRGB": f"type == {ms.group(1)}"}
+    wide = []
+    for q in body.split("||"):
+        if q not in wide_terms:
+            die(f"PIXMAN_FORMAT_IS_WIDE: unknown disjunct {q!r}")
+        wide.append("decide (" + wide_terms[q] + ")" if ">" in wide_terms[q] else "(" + wide_terms[q] + ")")
+    img = strip_comments((repo / "pixman" / "pixman-image.c").read_text())
+    if not re.search(r"flags\s*\|=\s*\(\s*FAST_PATH_NO_ACCESSORS\s*\|\s*FAST_PATH_NARROW_FORMAT\s*\)\s*;", img):
+        die("compute_image_info: FAST_PATH_NARROW_FORMAT is no longer set by default")
+    if not re.search(r"if\s*\(\s*PIXMAN_FORMAT_IS_WIDE\s*\(\s*image->bits\.format\s*\)\s*\)\s*flags\s*&=\s*~\s*FAST_PATH_NARROW_FORMAT\s*;", img):
+        die("compute_image_info: the bits-image clearing of FAST_PATH_NARROW_FORMAT changed")
+    n_clear = len(re.findall(r"&=\s*~\s*FAST_PATH_NARROW_FORMAT", img))
+    if n_clear != 2:      # the bits format and the alpha map's format
+        die(f"compute_image_info: FAST_PATH_NARROW_FORMAT is cleared in {n_clear} places (expected 2)")
     txt = ("/-! REGENERATED on every run by tools/gen_widetables.py from pixman/pixman-access.c and\n"
            "pixman/pixman-general.c — never edit. -/\nnamespace Pixman.Gen.SrgbTable\n\n"
            "/-- `to_linear_u[256]`: binary32 bit patterns of the sRGB → linear table -/\n"
@@ -52,7 +118,16 @@ def main():
     txt += "]\n\n/-- `needs_division[]` of `operator_needs_division` -/\ndef needsDivisionTable : List Nat := [\n"
     for i in range(0, 64, 16):
         txt += "  " + ", ".join(nd[i:i + 16]) + ("," if i < 48 else "") + "\n"
-    txt += "]\n\nend Pixman.Gen.SrgbTable\n"
+    txt += "]\n\n"
+    txt += ("/-- the condition under which `general_composite_rect` sets `width_flag = ITER_NARROW` (else `ITER_WIDE`),\n"
+            "conjunct by conjunct as in the source -/\n"
+            "def generalIsNarrow (srcNarrow maskPresent maskNarrow destNarrow needsDivision ditherNone : Bool) : Bool :=\n"
+            f"  {decision}\n\n"
+            "/-- `PIXMAN_FORMAT_IS_WIDE (f)` in terms of the channel widths and the type of `f`; `compute_image_info` clears\n"
+            "`FAST_PATH_NARROW_FORMAT` of a bits image exactly when it holds (the flag is set by default) -/\n"
+            "def formatIsWide (a r g b type : Nat) : Bool :=\n"
+            f"  {' || '.join(wide)}\n\n"
+            "end Pixman.Gen.SrgbTable\n")
     write_if_changed(out / "SrgbTable.lean", txt)
 
 
